@@ -490,7 +490,7 @@ def _jsonable_case(c):
     return _jsonable(c)
 
 OPEN_ITEMS = [
-    "C07_patterned_eq_dense is proved under decidable premises about the substitution computed by unify on the case (functional, acyclic, size-preserving, complete by the counting criterion); the harness evaluates them on every case (coverage.theorem_certificate); their derivation from typing is the open tier-B C06_unify_complete (bounded: C07_cert_holds_upto12)",
+    "C07_patterned_eq_dense (full statement: for all typed operands) is proved under decidable premises about the case: the substitution computed by unify is functional, acyclic, size-preserving and complete by the counting criterion; default_to/freshen preserve the denotations (cert_pre). The harness evaluates them on every case (coverage.theorem_certificate); their derivation from typing is the open tier-B C06_unify_complete and C06's open refinement of default_to/freshen (bounded: C07_cert_holds_upto12)",
     "fuel sufficiency of the model (unify / clone / stride under a substitution): a divergence would show as verdict 13",
     "post_init of the result (size-1 output axes) is modelled and model-checked; the theorems are stated for the tensor before __post_init__ together with the guard that makes it the identity",
 ]
